@@ -18,7 +18,7 @@ line (keys=int|str|tuple|float|obj), so the implementation sees keys of that Pyt
 The module is loaded from $BPT_PY_PATH (default /repo/python) by file path (the package
 __init__ would prefer a C extension); no bytecode is written into the repository.
 """
-import sys, os
+import sys, os, signal
 sys.dont_write_bytecode = True
 import importlib.util
 
@@ -579,7 +579,18 @@ class History:
             return
         self.step += 1
         try:
-            out = self.run_op(toks)
+            signal.alarm(WATCHDOG)         # a call that does not return must not hang the check
+            try:
+                out = self.run_op(toks)
+            finally:
+                signal.alarm(0)
+        except Watchdog:
+            self.emit("EXC NonTermination")
+            self.viol.append("VIOL * %s %d non-termination: %s did not return within %d s" %
+                             (self.hid, self.step, " ".join(toks)[:60], WATCHDOG))
+            self.dead = True
+            WD_HITS.append(self.hid)
+            return
         except BaseException as e:        # noqa: an exception class the call should not raise
             name = type(e).__name__
             self.emit("EXC " + name)
@@ -593,7 +604,26 @@ class History:
         self.dump()
 
 
+class Watchdog(BaseException):
+    pass
+
+
+def _on_alarm(signum, frame):
+    raise Watchdog()
+
+
+WATCHDOG = int(os.environ.get("BPT_WATCHDOG", "30"))
+WD_HITS = []
+
+
 def main():
+    import resource
+    try:
+        lim = int(os.environ.get("BPT_MEM_LIMIT_GB", "12")) << 30
+        resource.setrlimit(resource.RLIMIT_AS, (lim, lim))
+    except Exception:      # noqa
+        pass
+    signal.signal(signal.SIGALRM, _on_alarm)
     ops_path, trace_path, viol_path = sys.argv[1:4]
     trace, viol = [], []
     h = None
@@ -620,6 +650,8 @@ def main():
                 continue
             if h is not None:
                 h.line(toks)
+            if len(WD_HITS) >= 3:
+                break                     # enough to report; every further hit costs a watchdog period
     with open(trace_path, "w") as fh:
         fh.write("\n".join(trace) + ("\n" if trace else ""))
     with open(viol_path, "w") as fh:
